@@ -318,3 +318,19 @@ def memo_by_identity(ctx, rid: str, modules: tuple, why: str):
     ctx.floor(rid + ".functions", n, 5)
     if not bad:
         ctx.ok(rid, modules[0], f"{n} functions of {', '.join(modules)}: no caching decorator on object-typed arguments, no write into module-level containers")
+
+
+def ctor_env(repo, cls_qual: str, args: dict, models: dict | None = None) -> dict:
+    """`self.*` heap entries as the class's own `__init__` leaves them on the given arguments (parameters the rule does not know — added
+    later — take their defaults): rules that explore a method on a hand-made `self` start from this and override what they model."""
+    fi = repo.find_method(cls_qual, "__init__") if cls_qual in repo.classes else None
+    if fi is None:
+        return {}
+    known = set(fi.params)
+    try:
+        ps = [p for p in Interp(repo, call_models=models or {}).explore(fi, args={k: v for k, v in args.items() if k in known}, defaults=True) if p.exit[0] == "return"]
+    except AnalysisError:
+        return {}
+    if len(ps) != 1:
+        return {}
+    return {k: v for k, v in ps[0].heap.items() if k.startswith("self.")}
